@@ -1270,13 +1270,12 @@ Proof.
 Qed.
 
 (* From PRAGUE: the same, with the authorities of the valid tuples; what remains outside the
-   equality is (i) the delegation target of tx.to, which the first frame loads together with
-   the recipient, and (ii) the EIP-2935 history address, where the model's constant is not the
-   specification's (= the tree's): see history_address_differs. *)
+   equality is the delegation target of tx.to, which the first frame loads together with the
+   recipient. (The EIP-2935 history contract is pre-warmed by neither side.) *)
 Theorem tx_pre_state_is_spec_from_prague W G2 dest accts :
   tx_pre_state W = Some G2 -> en (w_spec W) E.PRAGUE = true ->
   Forall (fun t => snd t <= pow64 - 1) (w_auth_list W) ->
-  (forall a, a <> BLOCKHASH_STORAGE_ADDRESS -> a <> TxWarmSpec.HISTORY_STORAGE_ADDRESS ->
+  (forall a,
      as_acc (TxWarmSpec.tx_initial_sets (txw_of W dest accts)) a =
      acc_warm (gdb W G2) (gs G2) a || (a =? dest)
      || (match w_to W with Some _ => true | None => false end
@@ -1284,33 +1283,25 @@ Theorem tx_pre_state_is_spec_from_prague W G2 dest accts :
   (forall a k, as_slot (TxWarmSpec.tx_initial_sets (txw_of W dest accts)) a k = slot_warm (gdb W G2) (gs G2) a k).
 Proof.
   intros E HP HF. destruct (tx_pre_state_warm W G2 E) as [A B]. split; [|intros; rewrite B; reflexivity].
-  intros a N1 N2. rewrite A. unfold pre_warm_model, warm_preloaded. rewrite HP.
+  intros a. rewrite A. unfold pre_warm_model, warm_preloaded. rewrite HP.
   cbn [TxWarmSpec.tx_initial_sets initial_sets as_acc]. unfold TxWarmSpec.tx_prewarmed.
   rewrite (spec_authorities W dest accts a HF HP). unfold TxWarmSpec.prague.
   cbn [txw_of TxWarmSpec.tw_spec TxWarmSpec.tw_sender TxWarmSpec.tw_dest TxWarmSpec.tw_coinbase TxWarmSpec.tw_al TxWarmSpec.tw_is_create].
   change (GateSpec.enabled (w_spec W) GateSpec.PRAGUE) with (en (w_spec W) E.PRAGUE). rewrite HP.
   change (GateSpec.enabled (w_spec W) GateSpec.SHANGHAI) with (en (w_spec W) E.SHANGHAI).
   change (GateSpec.is_precompile (w_spec W) a) with (is_precompile W a). cbn [andb].
-  apply Z.eqb_neq in N1, N2. rewrite N1, N2.
   destruct (a =? w_caller W), (a =? dest), (is_precompile W a), (en (w_spec W) E.SHANGHAI && (a =? w_coinbase W)),
     (al_acc (w_access_list W) a), (mem_z (auth_warmed (chain_of W) (w_auth_list W)) a), (w_to W); cbn [negb andb orb];
     try reflexivity; destruct (TxWarmSpec.opt_is _ a); reflexivity.
 Qed.
 
-(* the model's EIP-2935 address is not the one the tree (and Spec/TxWarmSpec.v) uses *)
-Lemma history_address_differs :
-  BLOCKHASH_STORAGE_ADDRESS <> TxWarmSpec.HISTORY_STORAGE_ADDRESS /\
-  forall W, w_spec W = 18 ->
-    warm_preloaded W TxWarmSpec.HISTORY_STORAGE_ADDRESS = (TxWarmSpec.HISTORY_STORAGE_ADDRESS =? w_coinbase W) /\
-    warm_preloaded W BLOCKHASH_STORAGE_ADDRESS = true.
-Proof.
-  split; [vm_compute; discriminate|]. intros W HS. unfold warm_preloaded, is_precompile. rewrite HS. split.
-  - change (GateSpec.is_precompile 18 TxWarmSpec.HISTORY_STORAGE_ADDRESS) with false.
-    change (en 18 E.SHANGHAI) with true. change (en 18 E.PRAGUE) with true.
-    change (TxWarmSpec.HISTORY_STORAGE_ADDRESS =? BLOCKHASH_STORAGE_ADDRESS) with false. cbn [andb orb].
-    rewrite Bool.orb_false_r. reflexivity.
-  - change (en 18 E.PRAGUE) with true. rewrite Z.eqb_refl. cbn [andb]. apply Bool.orb_true_r.
-Qed.
+(* neither EIP-2935 address is pre-warmed by the model (the tree pre-warmed the early draft's
+   address until the fix recorded in known_findings.json) *)
+Lemma history_address_not_prewarmed :
+  forall W, is_precompile W BLOCKHASH_STORAGE_ADDRESS = false -> is_precompile W TxWarmSpec.HISTORY_STORAGE_ADDRESS = false ->
+    warm_preloaded W BLOCKHASH_STORAGE_ADDRESS = (en (w_spec W) E.SHANGHAI && (BLOCKHASH_STORAGE_ADDRESS =? w_coinbase W)) /\
+    warm_preloaded W TxWarmSpec.HISTORY_STORAGE_ADDRESS = (en (w_spec W) E.SHANGHAI && (TxWarmSpec.HISTORY_STORAGE_ADDRESS =? w_coinbase W)).
+Proof. intros W H1 H2. unfold warm_preloaded. rewrite H1, H2. split; reflexivity. Qed.
 
 
 (* ---------------------------------------------------------------- well-formedness reaches the first frame; run_tx *)
